@@ -27,6 +27,7 @@ structure DState where
   tests : Array TSpec := #[]
   ran   : Bool := false
   cli   : Bool := false                    -- the run goes through CommandLineTestRunner with `-p`
+  cliArgs : List String := []              -- argv after the program name
   nproc0 : Bool := false                   -- the runner cannot fork (RLIMIT_NPROC 0): the real fork seam fails
   nofork : Bool := false                   -- the harness links the build variant without fork/waitpid/kill
 deriving Inhabited
@@ -44,6 +45,23 @@ def parseActions : List String → Option (List (String × Nat))
     | some n, some r => some ((a, n) :: r)
     | _, _ => none
   | _ => none
+
+def validCliArg (a : String) : Bool :=
+  ["-p", "-c", "-v", "-vv", "-ojunit", "-oteamcity", "-r1", "-b", "-ri", "-gg", "-nt", "-xgZZZ", "-xnZZZ"].contains a ||
+  (match a.toList with
+   | '-' :: 's' :: d :: rest => '1' ≤ d && d ≤ '9' && rest.length ≤ 4 && rest.all Char.isDigit
+   | _ => false)
+
+/-- the switches `initializeTestRun` looks at -/
+def cliSwitches (args : List String) : CliArgs :=
+  { verbose := args.contains "-v", veryVerbose := args.contains "-vv", color := args.contains "-c",
+    separateProcess := args.contains "-p", runIgnored := args.contains "-ri", crashOnFail := false }
+
+def cliReverse (args : List String) : Bool := args.contains "-b"
+def cliShuffle (args : List String) : Bool := args.any (fun a => a.startsWith "-s")
+/-- JUnit output without a console beside it (the last `-o` wins; `-v`/`-vv` add a console) -/
+def cliJUnitOnly (args : List String) : Bool :=
+  (args.filter (fun a => a.startsWith "-o")).getLast? == some "-ojunit" && !args.contains "-v" && !args.contains "-vv"
 
 def phases : List String := ["pre", "setup", "body", "teardown", "post"]
 
@@ -87,7 +105,10 @@ def applyOp (d : DState) (op : List String) : Option DState :=
     | some t, some us => if t < d.tests.size && 100 ≤ us && us ≤ 1000000 then
         some { d with tests := d.tests.modify t (fun s => { s with tick := us }) } else none
     | _, _ => none
-  | ["cli"] => if !d.tests.isEmpty && !d.cli then some { d with cli := true } else none
+  | "cli" :: args =>
+    if !d.tests.isEmpty && !d.cli && args.length ≤ 10 && args.all validCliArg && (args.isEmpty || args.contains "-p") then
+      some { d with cli := true, cliArgs := if args.isEmpty then ["-p"] else args }
+    else none
   | ["nofork"] => if d.tests.isEmpty then some { d with nofork := true } else none
   | "real" :: t :: ph :: acts =>
     match t.toNat?, parseActions acts with
@@ -232,35 +253,51 @@ def childTexts (phase : String) : List (String × Nat) → Nat
     else if a == "signal" && terminatingSignals.contains n then 0
     else childTexts phase rest
 
-/-- the fork-less build: every test gets the platform's one failure, nothing is forked -/
-def modelRunNoFork (d : DState) : List String :=
+def isPermOfRange (l : List Nat) (n : Nat) : Bool :=
+  l.length == n && (List.range n).all (fun t => l.contains t)
+
+/-- the order in which the registry holds the tests: as added; reversed by `-b`; with `-s` whatever
+    `rand()` made of it (taken from the implementation's `started` lines, an environment input) -/
+def runOrder (d : DState) (ro : RunObs) : List Nat :=
   let n := d.tests.size
+  if d.cli && cliShuffle d.cliArgs then (if isPermOfRange ro.order n then ro.order else List.range n)
+  else if d.cli && cliReverse d.cliArgs then (List.range n).reverse
+  else List.range n
+
+/-- the fork-less build: every test gets the platform's one failure, nothing is forked -/
+def modelRunNoFork (d : DState) (ro : RunObs) : List String :=
+  let n := d.tests.size
+  let order := runOrder d ro
   let scripts : List TestScript := (List.range n).map (fun _ => { forkOk := true, outs := [] })
   let st := runAllOn .withoutFork scripts
-  let per := st.started.flatMap (fun t =>
+  let per := st.started.flatMap (fun p =>
+    let t := order.getD p 0
     let s := d.tests[t]!
     [s!"started {t}"] ++ (if s.real then [] else [s!"consumed {t} 0", s!"conts {t} 0"]) ++
-    ((st.failures.filter (·.1 == t)).map (fun f => s!"fail {t} {hexOfString f.2.text}")) ++ [s!"ended {t}"])
+    ((st.failures.filter (·.1 == p)).map (fun f => s!"fail {t} {hexOfString f.2.text}")) ++ [s!"ended {t}"])
   per ++ [s!"runcount {st.runCount}", s!"failures {st.failureCount}",
           "overall " ++ (if st.overallFailure then "fail" else "ok")] ++
          (if d.cli then [s!"exitcode {st.exitCode}"] else []) ++
          ["summary " ++ (if st.overallFailure then "errors" else "ok")]
 
 def modelRun (d : DState) (obs : List (List String)) : List String :=
-  if d.nofork then modelRunNoFork d else
   let n := d.tests.size
   let ro := readObs n obs
-  let regs : List RegTest := (List.range n).map (fun t =>
+  if d.nofork then modelRunNoFork d ro else
+  let order := runOrder d ro
+  let regs : List RegTest := order.map (fun t =>
     { group := (d.tests[t]!).group, script := scriptOf (d.tests[t]!) (ro.per[t]!) })
-  let st := runRegistry regs
-  let per := st.started.flatMap (fun t =>
-    if st.inRunner.contains t then inRunnerLines t (d.tests[t]!) else modelTestLines t (d.tests[t]!) (ro.per[t]!))
+  let st := if d.cli then runCommandLine (cliSwitches d.cliArgs) regs else runRegistry regs
+  let testAt (p : Nat) : Nat := order.getD p 0
+  let per := st.started.flatMap (fun p =>
+    let t := testAt p
+    if st.inRunner.contains p then inRunnerLines t (d.tests[t]!) else modelTestLines t (d.tests[t]!) (ro.per[t]!))
   let cliLines := if d.cli then [s!"exitcode {st.exitCode}"] else []
   let texts := if d.cli then
       (List.range n).filterMap (fun t =>
         let s := d.tests[t]!
         if s.real && s.inject == 0 && !s.forkFails && (ro.per[t]!).forked != ["realfail"] then
-          some s!"childtext {t} {childTexts s.phase s.actions}" else none)
+          some s!"childtext {t} {if cliJUnitOnly d.cliArgs then 0 else childTexts s.phase s.actions}" else none)
     else []
   per ++ [s!"runcount {st.runCount}", s!"failures {st.failureCount}",
           "overall " ++ (if st.overallFailure then "fail" else "ok")] ++ cliLines ++
@@ -469,7 +506,7 @@ def specTest (t : Nat) (s : TSpec) (o : TObs) : Except String Unit := do
     still started; nothing may be forked -/
 def specRunNoFork (d : DState) (ro : RunObs) : Except String Unit := do
   let n := d.tests.size
-  if ro.order != List.range n then throw s!"tests started {ro.order}, expected all of 0..{n - 1} in order"
+  if ro.order != runOrder d ro then throw s!"tests started {ro.order}, expected {runOrder d ro}"
   for t in List.range n do
     let o := ro.per[t]!
     if !o.forked.isEmpty then throw s!"test {t}: fork called on a platform without fork"
@@ -492,7 +529,8 @@ def specRun (d : DState) (obs : List (List String)) : Except String Unit := do
   for t in List.range n do
     if (ro.per[t]!).inrunner then
       throw s!"test {t} was executed inside the runner process although separate-process mode was requested (not forked)"
-  if ro.order != List.range n then throw s!"tests started {ro.order}, expected all of 0..{n - 1} in order (later tests must still run)"
+  let expectedOrder := runOrder d ro
+  if ro.order != expectedOrder then throw s!"tests started {ro.order}, expected all of {expectedOrder} (later tests must still run)"
   for t in List.range n do
     specTest t (d.tests[t]!) (ro.per[t]!)
     if d.nproc0 && (d.tests[t]!).real && !(d.tests[t]!).forkFails && (ro.per[t]!).forked != ["realfail"] then
